@@ -354,7 +354,7 @@ class _SocksMachine(object):
     @_machine.output()
     def _send_resolve_request(self):
         "sends RESOLVE_PTR request (Tor custom)"
-        host = self._addr.host.encode()
+        host = self._addr.host.encode('ascii')
         self._data_to_send(
             struct.pack(
                 '!BBBBB{}sH'.format(len(host)),
